@@ -28,7 +28,7 @@ def build(extras=False, release=False):
     t = t.replace("@SRC@", SRC).replace("@REPO@", REPO)
     p = os.path.join(d, "Cargo.toml")
     if not os.path.exists(p) or open(p).read() != t: open(p, "w").write(t)
-    shutil.copy(os.path.join(REPO, "Cargo.lock"), os.path.join(d, "Cargo.lock"))
+    copy_lockfile(d)
     # identifier -> property *function* (by_name only reaches the tables): generated from the identifiers of the BY_NAME tables
     import re
     modsrc = re.sub(r"//[^\n]*", "", open(os.path.join(REPO, "pest/src/unicode/mod.rs")).read())
